@@ -165,6 +165,20 @@ Proof.
   - destruct (unescape_total (fix_dangling fx) pe re) as [u Hu]. rewrite Hu. exact I.
 Qed.
 
+Lemma starts_with_1' : forall c d s, starts_with [c; d] s = true -> exists s', s = c :: s'.
+Proof.
+  intros c d [|x s] H; simpl in H; [discriminate|].
+  apply andb_true_iff in H. destruct H as [H _]. apply N.eqb_eq in H. subst. eauto.
+Qed.
+
+Lemma starts_with_2 : forall c d s, starts_with [c; d] s = true -> exists s', s = c :: d :: s'.
+Proof.
+  intros c d [|x [|y s]] H; simpl in H; try discriminate.
+  - apply andb_true_iff in H. destruct H as [_ H]. discriminate.
+  - apply andb_true_iff in H. destruct H as [H1 H2]. apply andb_true_iff in H2. destruct H2 as [H2 _].
+    apply N.eqb_eq in H1. apply N.eqb_eq in H2. subst. eauto.
+Qed.
+
 (* ---- the result of a function that holds errs ---- *)
 Definition tgood {A} (P : A -> Prop) (x : tres A) : Prop :=
   match x with TOk a errs => P a /\ errs_ok errs | TErr errs _ => True | _ => False end.
@@ -214,4 +228,341 @@ Section Total.
       destruct (existsb (Nat.eqb (byte_len a)) re_bad); [exact I|].
       split; [reflexivity|assumption].
   Qed.
+
+  (* ---- the primitives at a boundary: src = a ++ r, i = byte_len a ---- *)
+  Definition nls (c : N) : bool := negb (is_line_sep c).
+
+  Lemma parse_ws_eq : forall a r, src = a ++ r ->
+    parse_ws src (byte_len a) = Done (byte_len a + byte_len (take_while is_ws r)).
+  Proof. intros a r H. unfold parse_ws. rewrite H. rewrite slice_from_app. reflexivity. Qed.
+  Lemma parse_nl_eq : forall a r, src = a ++ r ->
+    parse_nl src (byte_len a) = Done (byte_len a + byte_len (take_while is_line_sep r)).
+  Proof. intros a r H. unfold parse_nl. rewrite H. rewrite slice_from_app. reflexivity. Qed.
+  Lemma parse_spaces_eq : forall a r, src = a ++ r ->
+    parse_spaces src (byte_len a) = Done (byte_len a + byte_len (take_while is_space_sep r)).
+  Proof. intros a r H. unfold parse_spaces. rewrite H. rewrite slice_from_app. reflexivity. Qed.
+  Lemma lookahead_eq : forall p a r, src = a ++ r ->
+    lookahead_is src p (byte_len a) = Done (if starts_with p r then Some (byte_len a + byte_len p) else None).
+  Proof. intros p a r H. unfold lookahead_is. rewrite H. rewrite slice_from_app. reflexivity. Qed.
+
+  Lemma find_take_while : forall f r,
+    match find f r with Some k => k | None => byte_len r end = byte_len (take_while (fun c => negb (f c)) r).
+  Proof.
+    intros f r. unfold find.
+    assert (H : forall s off, match find_from f s off with Some k => k | None => off + byte_len s end
+                              = off + byte_len (take_while (fun c => negb (f c)) s)).
+    { induction s as [|c s IH]; intros off; cbn [find_from take_while byte_len]; [reflexivity|].
+      destruct (f c); cbn [negb take_while byte_len]; [lia|]. specialize (IH (off + len_utf8 c)).
+      destruct (find_from f s (off + len_utf8 c)); lia. }
+    specialize (H r 0). cbn [plus] in H. exact H.
+  Qed.
+
+  Lemma src_len_eq : forall a r, src = a ++ r -> src_len src = byte_len a + byte_len r.
+  Proof. intros a r H. unfold src_len. rewrite H. apply byte_len_app. Qed.
+
+  Lemma line_len_eq : forall a r, src = a ++ r ->
+    line_len_at src (byte_len a) = Done (byte_len (take_while nls r)).
+  Proof.
+    intros a r H. unfold line_len_at. rewrite H at 1. rewrite slice_from_app. cbn [obind]. f_equal.
+    rewrite (src_len_eq a r H). replace (byte_len a + byte_len r - byte_len a) with (byte_len r) by lia.
+    apply find_take_while.
+  Qed.
+
+  Lemma eqb_src_len : forall a r, src = a ++ r ->
+    (byte_len a =? src_len src) = match r with [] => true | _ => false end.
+  Proof.
+    intros a r H. rewrite (src_len_eq a r H). destruct r as [|c r].
+    - simpl. rewrite Nat.add_0_r. apply Nat.eqb_refl.
+    - apply Nat.eqb_neq. cbn [byte_len]. pose proof (len_utf8_pos c). lia.
+  Qed.
+
+  Lemma take_while_nonempty : forall f c r, f c = true -> 1 <= byte_len (take_while f (c :: r)).
+  Proof. intros f c r H. simpl. rewrite H. cbn [byte_len]. pose proof (len_utf8_pos c). lia. Qed.
+
+  Lemma byte_len_take_drop : forall f r, byte_len r = byte_len (take_while f r) + byte_len (drop_while f r).
+  Proof. intros f r. rewrite <- byte_len_app. rewrite take_drop_while. reflexivity. Qed.
+
+  (* where a loop stops: at a boundary followed by nothing or by %% *)
+  Definition at_end_or_sep (x : nat * pstate) : Prop :=
+    exists a r, src = a ++ r /\ fst x = byte_len a /\ (r = [] \/ starts_with [c_percent; c_percent] r = true).
+  Definition at_boundary (x : nat * pstate) : Prop :=
+    exists a r, src = a ++ r /\ fst x = byte_len a.
+
+  Lemma tgood_weaken : forall A (P Q : A -> Prop) x, (forall a, P a -> Q a) -> tgood P x -> tgood Q x.
+  Proof. intros A P Q x H Hx. destruct x; simpl in *; auto. destruct Hx; auto. Qed.
+
+  Lemma not_line_sep_slash : is_line_sep c_slash = false. Proof. reflexivity. Qed.
+
+  (* ---- parse_rules ---- *)
+  Lemma parse_rules_total : forall fuel a r st errs,
+    src = a ++ r -> byte_len r < fuel -> errs_ok errs ->
+    tgood at_end_or_sep (parse_rules src awc pe re_bad fx fuel (byte_len a) st errs).
+  Proof.
+    induction fuel as [|fuel IH]; intros a r st errs Hsrc Hf Herrs; [lia|].
+    cbn [parse_rules].
+    rewrite (parse_nl_eq a r Hsrc). cbn [lift lbind].
+    set (a1 := a ++ take_while is_line_sep r). set (r1 := drop_while is_line_sep r).
+    assert (Hsrc1 : src = a1 ++ r1).
+    { unfold a1, r1. rewrite <- app_assoc. rewrite take_drop_while. exact Hsrc. }
+    replace (byte_len a + byte_len (take_while is_line_sep r)) with (byte_len a1)
+      by (unfold a1; rewrite byte_len_app; reflexivity).
+    rewrite (line_len_eq a1 r1 Hsrc1). cbn [lift lbind].
+    set (line0 := take_while nls r1). set (tl := drop_while nls r1).
+    assert (Hr1 : r1 = line0 ++ tl) by (unfold line0, tl; rewrite take_drop_while; reflexivity).
+    assert (Hsrc2 : src = (a1 ++ line0) ++ tl) by (rewrite <- app_assoc; rewrite <- Hr1; exact Hsrc1).
+    assert (Hlen : byte_len r = byte_len (take_while is_line_sep r) + byte_len line0 + byte_len tl).
+    { rewrite (byte_len_take_drop is_line_sep r). fold r1. rewrite Hr1. rewrite byte_len_app. lia. }
+    assert (Hhead : forall c r1', r1 = c :: r1' -> 1 <= byte_len line0).
+    { intros c r1' Hc. unfold line0. rewrite Hc. apply take_while_nonempty.
+      unfold nls. apply negb_true_iff. eapply drop_while_head. unfold r1 in Hc. exact Hc. }
+    assert (Hnext : forall st' errs', errs_ok errs' -> 1 <= byte_len line0 ->
+              tgood at_end_or_sep (parse_rules src awc pe re_bad fx fuel (byte_len a1 + byte_len line0) st' errs')).
+    { intros st' errs' He Hl. replace (byte_len a1 + byte_len line0) with (byte_len (a1 ++ line0))
+        by (rewrite byte_len_app; reflexivity).
+      apply (IH (a1 ++ line0) tl st' errs' Hsrc2); [lia|assumption]. }
+    assert (Hcmt : lift (if awc then lookahead_is src [c_slash; c_slash] (byte_len a1) else Done None)
+                   = ROk (if awc && starts_with [c_slash; c_slash] r1 then Some (byte_len a1 + 2) else None)).
+    { destruct awc; [|reflexivity]. rewrite (lookahead_eq _ a1 r1 Hsrc1). cbn [lift andb].
+      destruct (starts_with [c_slash; c_slash] r1); reflexivity. }
+    rewrite Hcmt. cbn [lbind].
+    destruct (awc && starts_with [c_slash; c_slash] r1) eqn:Ecm.
+    - apply andb_true_iff in Ecm. destruct Ecm as [_ Ecm].
+      destruct r1 as [|c r1'] eqn:Er1; [discriminate|].
+      apply Hnext; [assumption|]. eapply Hhead. reflexivity.
+    - rewrite (parse_ws_eq a1 r1 Hsrc1). cbn [lift lbind].
+      destruct (negb (byte_len a1 + byte_len (take_while is_ws r1) =? byte_len a1)) eqn:Ej.
+      + apply negb_true_iff in Ej. apply Nat.eqb_neq in Ej.
+        destruct r1 as [|c r1'] eqn:Er1; [simpl in Ej; lia|].
+        apply Hnext; [|eapply Hhead; reflexivity].
+        apply errs_ok_app; [assumption|]. constructor; [simpl; discriminate|constructor].
+      + rewrite (eqb_src_len a1 r1 Hsrc1).
+        destruct r1 as [|c r1'] eqn:Er1.
+        * simpl. split; [|assumption]. exists a1, []. auto.
+        * rewrite (lookahead_eq _ a1 (c :: r1') Hsrc1). cbn [lift lbind].
+          destruct (starts_with [c_percent; c_percent] (c :: r1')) eqn:Esep.
+          -- simpl. split; [|assumption]. exists a1, (c :: r1'). auto.
+          -- pose proof (parse_rule_total a1 line0 tl st errs) as Hpr.
+             rewrite <- app_assoc in Hsrc2. specialize (Hpr Hsrc2).
+             rewrite (line_len_eq a1 (c :: r1') Hsrc1) in Hpr. specialize (Hpr eq_refl Herrs).
+             destruct (parse_rule src pe re_bad fx (byte_len a1) st errs) as [[k st'] errs'|errs' e| |];
+               try contradiction; [|exact I].
+             destruct Hpr as [Hk He]. cbn [fst] in Hk. rewrite Hk.
+             apply Hnext; [assumption|]. eapply Hhead. reflexivity.
+  Qed.
+
+  (* ---- declarations ---- *)
+  Lemma declare_loop_total : forall excl names st errs, errs_ok errs ->
+    tgood (fun _ => True) (declare_loop excl names st errs).
+  Proof.
+    intros excl names. induction names as [|[name sp] rest IH]; intros st errs He.
+    - simpl. auto.
+    - cbn [declare_loop]. unfold validate_start_state.
+      destruct (negb (is_start_state_name name)); [exact I|].
+      destruct (List.find (fun s0 => text_eqb (ss_name s0) name) (start_states st)) as [s0|].
+      + destruct (add_dup_total errs DuplicateStartState (ss_span s0) sp He) as [l [Hl Hok]].
+        rewrite Hl. cbn [lift rbind lbind fst snd]. apply IH. assumption.
+      + cbn [lbind fst snd]. apply IH. assumption.
+  Qed.
+
+  Lemma split_go_nonempty : forall f s off start cur, split_go f s off start cur <> [].
+  Proof.
+    intros f s. induction s as [|c s IH]; intros off start cur; simpl; [discriminate|].
+    destruct (f c); [discriminate|apply IH].
+  Qed.
+
+  Lemma declared_names_base : forall base params n sp,
+    In (n, sp) (declared_names base params) -> base <= fst sp.
+  Proof.
+    intros base params n sp H. unfold declared_names in H. apply in_map_iff in H.
+    destruct H as [[o piece] [Heq _]]. inversion Heq; subst. cbn [fst]. lia.
+  Qed.
+
+  Lemma declared_names_nonempty : forall base params, declared_names base params <> [].
+  Proof.
+    intros base params H. unfold declared_names in H. apply map_eq_nil in H.
+    unfold split in H. eapply split_go_nonempty. exact H.
+  Qed.
+
+  Lemma declare_start_states_total : forall excl a1 p rawr tl st errs,
+    src = a1 ++ p ++ rawr ++ tl -> 1 <= byte_len p -> errs_ok errs ->
+    tgood (fun x => exists a' r', src = a' ++ r' /\ fst x = byte_len a' /\ byte_len a1 < byte_len a')
+          (declare_start_states src excl (byte_len a1) (byte_len p) (byte_len p + byte_len rawr) st errs).
+  Proof.
+    intros excl a1 p rawr tl st errs Hsrc Hp He. unfold declare_start_states.
+    assert (Hraw : slice src (byte_len a1 + byte_len p) (byte_len a1 + (byte_len p + byte_len rawr)) = Done rawr).
+    { rewrite Hsrc. replace (a1 ++ p ++ rawr ++ tl) with ((a1 ++ p) ++ rawr ++ tl) by (rewrite <- app_assoc; reflexivity).
+      apply slice_app; rewrite byte_len_app; lia. }
+    rewrite Hraw. cbn [lift lbind].
+    destruct (trim is_ws rawr) as [|c0 params'] eqn:Etrim; [exact I|]. rewrite <- Etrim.
+    pose proof (declared_names_selects src _ _ _ Hraw) as Hsel.
+    set (names := declared_names (byte_len a1 + byte_len p + byte_len (take_while is_ws rawr)) (trim is_ws rawr)) in *.
+    pose proof (declare_loop_total excl names st errs He) as Hdl.
+    destruct (declare_loop excl names st errs) as [st' errs'|errs' e| |]; try contradiction; [|exact I].
+    destruct Hdl as [_ He'].
+    destruct (rev names) as [|[n [s0 e0]] rest] eqn:Erev.
+    { exfalso. apply (declared_names_nonempty (byte_len a1 + byte_len p + byte_len (take_while is_ws rawr)) (trim is_ws rawr)).
+      fold names. rewrite <- (rev_involutive names). rewrite Erev. reflexivity. }
+    assert (Hin : In (n, (s0, e0)) names).
+    { apply (proj2 (in_rev names _)). rewrite Erev. left. reflexivity. }
+    pose proof (declared_names_base _ _ _ _ Hin) as Hb. cbn [fst] in Hb.
+    rewrite Forall_forall in Hsel. specialize (Hsel _ Hin). unfold selects in Hsel. cbn [fst snd] in Hsel.
+    apply slice_inv in Hsel. destruct Hsel as [A [B [HA [Hs0 He0]]]].
+    assert (Hsrc' : src = (A ++ n) ++ B) by (rewrite <- app_assoc; exact HA).
+    replace e0 with (byte_len (A ++ n)) by (rewrite byte_len_app; lia).
+    rewrite (parse_ws_eq (A ++ n) B Hsrc'). cbn [lift lbind]. split; [|assumption].
+    exists ((A ++ n) ++ take_while is_ws B), (drop_while is_ws B). cbn [fst]. split; [|split].
+    - rewrite <- app_assoc. rewrite take_drop_while. exact Hsrc'.
+    - rewrite !byte_len_app. lia.
+    - rewrite !byte_len_app. lia.
+  Qed.
+
+  Lemma trim_end_nil : forall f, trim_end f [] = [].
+  Proof. reflexivity. Qed.
+
+  Lemma is_declaration_nonempty : forall k1 k2 d, is_declaration k1 k2 d = true -> d <> [].
+  Proof. intros k1 k2 d H. destruct d; [discriminate|discriminate]. Qed.
+
+  Lemma parse_declaration_total : forall a1 c0 r1' st errs,
+    src = a1 ++ c0 :: r1' -> errs_ok errs ->
+    tgood (fun x => exists a' r', src = a' ++ r' /\ fst x = byte_len a' /\ byte_len a1 < byte_len a')
+          (parse_declaration src (byte_len a1) st errs).
+  Proof.
+    intros a1 c0 r1' st errs Hsrc He. unfold parse_declaration.
+    rewrite (line_len_eq a1 _ Hsrc). cbn [lift lbind].
+    set (r1 := c0 :: r1') in *.
+    set (line0 := take_while nls r1). set (tl := drop_while nls r1).
+    assert (Hr1 : r1 = line0 ++ tl) by (unfold line0, tl; rewrite take_drop_while; reflexivity).
+    assert (Hsrc2 : src = a1 ++ line0 ++ tl) by (rewrite <- Hr1; exact Hsrc).
+    rewrite Hsrc2 at 1. rewrite (slice_app a1 line0 tl) by reflexivity. cbn [lift lbind].
+    destruct (trim_end_split is_ws line0) as [w [Hl0 _]].
+    set (line := trim_end is_ws line0) in *.
+    pose proof (find_spec is_ws line) as Hf.
+    destruct (find is_ws line) as [k|].
+    - destruct Hf as [p [c [q [Hline [_ [_ Hk]]]]]]. subst k.
+      assert (Hsrc3 : src = a1 ++ p ++ (c :: q ++ w) ++ tl).
+      { rewrite Hsrc2. rewrite Hl0. rewrite Hline. rewrite <- !app_assoc. cbn [app]. rewrite <- !app_assoc. reflexivity. }
+      rewrite Hsrc3 at 1. rewrite (slice_app a1 p ((c :: q ++ w) ++ tl)) by reflexivity. cbn [lift lbind].
+      assert (Hll : byte_len line0 = byte_len p + byte_len (c :: q ++ w)).
+      { rewrite Hl0. rewrite Hline. rewrite !byte_len_app. cbn [byte_len]. rewrite byte_len_app. lia. }
+      rewrite Hll.
+      assert (Hp : forall k1 k2, is_declaration k1 k2 (trim_end is_ws p) = true -> 1 <= byte_len p).
+      { intros k1 k2 H. apply is_declaration_nonempty in H. destruct p as [|p0 p']; [exfalso; apply H; reflexivity|].
+        cbn [byte_len]. pose proof (len_utf8_pos p0). lia. }
+      destruct (is_declaration 115 83 (trim_end is_ws p)) eqn:E1.
+      + apply (declare_start_states_total false a1 p (c :: q ++ w) tl); [exact Hsrc3 | eapply Hp; exact E1 | exact He].
+      + destruct (is_declaration 120 88 (trim_end is_ws p)) eqn:E2; [|exact I].
+        apply (declare_start_states_total true a1 p (c :: q ++ w) tl); [exact Hsrc3 | eapply Hp; exact E2 | exact He].
+    - rewrite Hsrc2 at 1. rewrite (slice_app a1 line0 tl) by reflexivity. cbn [lift lbind].
+      assert (Hsrc3 : src = a1 ++ line0 ++ [] ++ tl) by exact Hsrc2.
+      assert (Hp : forall k1 k2, is_declaration k1 k2 (trim_end is_ws line0) = true -> 1 <= byte_len line0).
+      { intros k1 k2 H. apply is_declaration_nonempty in H. destruct line0 as [|p0 p']; [exfalso; apply H; reflexivity|].
+        cbn [byte_len]. pose proof (len_utf8_pos p0). lia. }
+      destruct (is_declaration 115 83 (trim_end is_ws line0)) eqn:E1.
+      + pose proof (declare_start_states_total false a1 line0 [] tl st errs Hsrc3 (Hp _ _ E1) He) as H.
+        cbn [byte_len] in H. rewrite Nat.add_0_r in H. exact H.
+      + destruct (is_declaration 120 88 (trim_end is_ws line0)) eqn:E2; [|exact I].
+        pose proof (declare_start_states_total true a1 line0 [] tl st errs Hsrc3 (Hp _ _ E2) He) as H.
+        cbn [byte_len] in H. rewrite Nat.add_0_r in H. exact H.
+  Qed.
+
+  Lemma parse_declarations_loop_total : forall fuel a r st errs,
+    src = a ++ r -> byte_len r < fuel -> errs_ok errs ->
+    tgood at_boundary (parse_declarations_loop src awc fuel (byte_len a) st errs).
+  Proof.
+    induction fuel as [|fuel IH]; intros a r st errs Hsrc Hf Herrs; [lia|].
+    cbn [parse_declarations_loop].
+    rewrite (parse_ws_eq a r Hsrc). cbn [lift lbind].
+    set (a1 := a ++ take_while is_ws r). set (r1 := drop_while is_ws r).
+    assert (Hsrc1 : src = a1 ++ r1).
+    { unfold a1, r1. rewrite <- app_assoc. rewrite take_drop_while. exact Hsrc. }
+    replace (byte_len a + byte_len (take_while is_ws r)) with (byte_len a1)
+      by (unfold a1; rewrite byte_len_app; reflexivity).
+    assert (Hlen : byte_len r = byte_len (take_while is_ws r) + byte_len r1).
+    { apply byte_len_take_drop. }
+    assert (Hcmt : lift (if awc then lookahead_is src [c_slash; c_slash] (byte_len a1) else Done None)
+                   = ROk (if awc && starts_with [c_slash; c_slash] r1 then Some (byte_len a1 + 2) else None)).
+    { destruct awc; [|reflexivity]. rewrite (lookahead_eq _ a1 r1 Hsrc1). cbn [lift andb].
+      destruct (starts_with [c_slash; c_slash] r1); reflexivity. }
+    rewrite Hcmt. cbn [lbind].
+    destruct (awc && starts_with [c_slash; c_slash] r1) eqn:Ecm.
+    - apply andb_true_iff in Ecm. destruct Ecm as [_ Ecm].
+      rewrite Hsrc1 at 1. rewrite slice_from_app. cbn [lift lbind].
+      set (line0 := take_while nls r1). set (tl := drop_while nls r1).
+      assert (Hr1 : r1 = line0 ++ tl) by (unfold line0, tl; rewrite take_drop_while; reflexivity).
+      assert (Hsrc2 : src = (a1 ++ line0) ++ tl) by (rewrite <- app_assoc; rewrite <- Hr1; exact Hsrc1).
+      assert (Hi' : match find is_line_sep r1 with Some k => k + byte_len a1 | None => src_len src end
+                    = byte_len (a1 ++ line0)).
+      { pose proof (find_take_while is_line_sep r1) as Hft. fold nls in Hft. fold line0 in Hft.
+        rewrite byte_len_app. rewrite (src_len_eq a1 r1 Hsrc1).
+        destruct (find is_line_sep r1); lia. }
+      rewrite Hi'.
+      assert (Hl0 : 1 <= byte_len line0).
+      { apply starts_with_1' in Ecm. destruct Ecm as [r1' Hr1']. unfold line0. rewrite Hr1'.
+        apply take_while_nonempty. reflexivity. }
+      apply (IH (a1 ++ line0) tl st errs Hsrc2); [|assumption].
+      rewrite Hr1 in Hlen. rewrite byte_len_app in Hlen. lia.
+    - rewrite (eqb_src_len a1 r1 Hsrc1).
+      destruct r1 as [|c r1'] eqn:Er1; [exact I|].
+      rewrite (lookahead_eq _ a1 (c :: r1') Hsrc1). cbn [lift lbind].
+      destruct (starts_with [c_percent; c_percent] (c :: r1')) eqn:Esep.
+      + apply starts_with_2 in Esep. destruct Esep as [r2 Hr2].
+        assert (Hsrc2 : src = (a1 ++ [c_percent; c_percent]) ++ r2).
+        { rewrite <- app_assoc. rewrite Hsrc1. rewrite Hr2. reflexivity. }
+        replace (byte_len a1 + byte_len [c_percent; c_percent]) with (byte_len (a1 ++ [c_percent; c_percent]))
+          by (rewrite byte_len_app; reflexivity).
+        rewrite (parse_spaces_eq _ r2 Hsrc2). cbn [lift lbind]. split; [|assumption].
+        exists ((a1 ++ [c_percent; c_percent]) ++ take_while is_space_sep r2), (drop_while is_space_sep r2).
+        split; [rewrite <- app_assoc; rewrite take_drop_while; exact Hsrc2|].
+        cbn [fst]. rewrite !byte_len_app. lia.
+      + pose proof (parse_declaration_total a1 c r1' st errs Hsrc1 Herrs) as Hpd.
+        destruct (parse_declaration src (byte_len a1) st errs) as [[k st'] errs'|errs' e| |];
+          try contradiction; [|exact I].
+        destruct Hpd as [[a' [r' [Hs' [Hk Hlt]]]] He']. cbn [fst] in Hk. subst k.
+        apply (IH a' r' st' errs' Hs'); [|assumption].
+        assert (Hb : byte_len src = byte_len a' + byte_len r') by (rewrite Hs' at 1; apply byte_len_app).
+        assert (Hb1 : byte_len src = byte_len a1 + byte_len (c :: r1')) by (rewrite Hsrc1 at 1; apply byte_len_app).
+        lia.
+  Qed.
+
+  Lemma parse_total : forall a r, src = a ++ r ->
+    exists res, parse src awc pe re_bad fx (fuel_for src) (byte_len a) = Done res.
+  Proof.
+    intros a r Hsrc. unfold parse, parse_declarations.
+    rewrite (parse_ws_eq a r Hsrc). cbn [lift lbind].
+    set (a1 := a ++ take_while is_ws r). set (r1 := drop_while is_ws r).
+    assert (Hsrc1 : src = a1 ++ r1).
+    { unfold a1, r1. rewrite <- app_assoc. rewrite take_drop_while. exact Hsrc. }
+    replace (byte_len a + byte_len (take_while is_ws r)) with (byte_len a1)
+      by (unfold a1; rewrite byte_len_app; reflexivity).
+    assert (Hfuel : forall x y, src = x ++ y -> byte_len y < fuel_for src).
+    { intros x y H. unfold fuel_for. rewrite H at 1. rewrite byte_len_app. lia. }
+    pose proof (parse_declarations_loop_total (fuel_for src) a1 r1 initial_state [] Hsrc1 (Hfuel _ _ Hsrc1)
+                  (Forall_nil _)) as Hd.
+    destruct (parse_declarations_loop src awc (fuel_for src) (byte_len a1) initial_state [])
+      as [[i st] errs|errs e| |]; try contradiction; [|eauto].
+    destruct Hd as [[a2 [r2 [Hsrc2 Hi]]] He]. cbn [fst] in Hi. subst i.
+    pose proof (parse_rules_total (fuel_for src) a2 r2 st errs Hsrc2 (Hfuel _ _ Hsrc2) He) as Hr.
+    destruct (parse_rules src awc pe re_bad fx (fuel_for src) (byte_len a2) st errs)
+      as [[i st'] errs'|errs' e| |]; try contradiction; [|eauto].
+    destruct Hr as [[a3 [r3 [Hsrc3 [Hi Hend]]]] He']. cbn [fst] in Hi. subst i.
+    rewrite (lookahead_eq _ a3 r3 Hsrc3). cbn [obind].
+    destruct Hend as [Hend|Hend].
+    - subst r3. cbn [starts_with]. rewrite (eqb_src_len a3 [] Hsrc3). eauto.
+    - rewrite Hend. apply starts_with_2 in Hend. destruct Hend as [r4 Hr4].
+      assert (Hsrc4 : src = (a3 ++ [c_percent; c_percent]) ++ r4).
+      { rewrite <- app_assoc. rewrite Hsrc3. rewrite Hr4. reflexivity. }
+      replace (byte_len a3 + byte_len [c_percent; c_percent]) with (byte_len (a3 ++ [c_percent; c_percent]))
+        by (rewrite byte_len_app; reflexivity).
+      rewrite (parse_ws_eq _ r4 Hsrc4). cbn [obind].
+      destruct (_ =? src_len src); eauto.
+  Qed.
 End Total.
+
+Lemma lex_parse_total : lex_parse_total_stmt.
+Proof.
+  intros fx src pos awc pe re_bad [s Hs]. unfold lex_from_str. rewrite Hs. cbn [obind].
+  destruct (fix_header fx).
+  - apply slice_from_inv in Hs. destruct Hs as [a [Hsrc Ha]]. subst pos.
+    eapply parse_total. exact Hsrc.
+  - apply (parse_total s awc pe re_bad fx [] s). reflexivity.
+Qed.
